@@ -39,6 +39,7 @@ def run(ctx, pid, kinds, n_quick, n_thorough, polite=60, extra_assumptions=()):
     ok, binp, log = V.build_harness("sup")
     results, stats = [], {}
     rejected, bad, wcodes, badw = [], [], [], {}
+    outside_thm = []
     if not ok:
         ctx.broken_build("harness-build(-tags verif) against current /repo tree (a missing trace point hook shows up here)", log)
     else:
@@ -82,6 +83,8 @@ def run(ctx, pid, kinds, n_quick, n_thorough, polite=60, extra_assumptions=()):
                         bad.append(base + i)
                         badw[base + i] = w
             wcodes += res["r_windows"]
+            if "r_thm_" + pid in res:
+                outside_thm += [base + i for i in res["r_thm_" + pid]]
             if ctx.replay:
                 break
     # ---- classify
@@ -177,6 +180,7 @@ def run(ctx, pid, kinds, n_quick, n_thorough, polite=60, extra_assumptions=()):
         "monitor_failures": len(bad), "monitor_failures_outside_windows": len(unexplained),
         "quiescent_histories": sum(1 for r in results if r.get("quiescent")), "hangs_at_quiescence": len(hangs),
         "histories_through_known_windows": win_hist,
+        "histories_outside_the_main_theorems_side_conditions": len(outside_thm) if pid in ("C12",) else "not evaluated",
         "harness_stats": stats,
         "exhaustive": False,
         "samples": sample or [{"note": "no short history in this run"}],
